@@ -4,23 +4,32 @@ package snowflake_proxy
 // (candidate type, IPv4 address) pair of TLC's table a real answering
 // PeerConnection is made whose local description carries a candidate of that
 // type and address (SettingEngine.SetNAT1To1IPs rewrites the gathered
-// addresses), and the real SignalingServer.sendAnswer posts it to an httptest
-// server that captures the body, with and without keep-local-addresses.  What
-// was posted is judged by `sdpdrv judgepc`.
+// addresses).  The real SignalingServer.sendAnswer is then called, with and
+// without keep-local-addresses, once per ENVIRONMENT SCRIPT of the call-site
+// machine of spec/SdpStrip (TLC's Scripts): the server's transport is a
+// scripted http.RoundTripper whose first round trips fail as the script says
+// (connection reset, timeout, EOF, refused: transport errors; http500: an
+// error status) before it answers.  EVERY request body handed to the transport
+// is captured - a failed attempt has left the process just as well - and all
+// of them are judged by `sdpdrv judgepc`.
 //
-// Input  (env VERIF_C08_IN):  ndjson {"typ":"host"|"srflx","addr":"a.b.c.d"}
-// Output (env VERIF_C08_OUT): ndjson {"idx","typ","addr","keeplocal","input","sent" | "notsent" | "panic"}
+// Input  (env VERIF_C08_IN):      ndjson {"typ":"host"|"srflx","addr":"a.b.c.d"}
+//        (env VERIF_C08_SCRIPTS): ndjson {"faults":[kind,...]}
+// Output (env VERIF_C08_OUT): ndjson {"idx","typ","addr","keeplocal","faults","input","sents":[...] | "skip" | "panic"}
 
 import (
 	"bufio"
 	"bytes"
 	"encoding/json"
 	"fmt"
+	"io"
 	"io/ioutil"
 	"log"
+	"net"
 	"net/http"
-	"net/http/httptest"
 	"os"
+	"strconv"
+	"syscall"
 	"runtime/debug"
 	"sync"
 	"testing"
@@ -33,15 +42,69 @@ import (
 )
 
 type verifC08Capture struct {
-	Idx       int    `json:"idx"`
-	Typ       string `json:"typ"`
-	Addr      string `json:"addr"`
-	KeepLocal bool   `json:"keeplocal"`
-	Input     string `json:"input"`
-	Sent      string `json:"sent"`
-	NotSent   bool   `json:"notsent,omitempty"`
-	Panic     string `json:"panic,omitempty"`
-	Skip      string `json:"skip,omitempty"`
+	Idx       int      `json:"idx"`
+	Typ       string   `json:"typ"`
+	Addr      string   `json:"addr"`
+	KeepLocal bool     `json:"keeplocal"`
+	Faults    []string `json:"faults"`
+	Input     string   `json:"input"`
+	Sents     []string `json:"sents"`
+	Undecoded int      `json:"undecoded,omitempty"`
+	Panic     string   `json:"panic,omitempty"`
+	Skip      string   `json:"skip,omitempty"`
+}
+
+type verifC08Timeout struct{}
+
+func (verifC08Timeout) Error() string   { return "i/o timeout" }
+func (verifC08Timeout) Timeout() bool   { return true }
+func (verifC08Timeout) Temporary() bool { return true }
+
+// verifC08Transport fails its first len(faults) round trips as scripted, then
+// answers; it records the SDP of every answer request it is handed.
+type verifC08Transport struct {
+	mu        sync.Mutex
+	faults    []string
+	n         int
+	sents     []string
+	undecoded int
+}
+
+func (t *verifC08Transport) RoundTrip(req *http.Request) (*http.Response, error) {
+	body, _ := ioutil.ReadAll(req.Body)
+	req.Body.Close()
+	t.mu.Lock()
+	defer t.mu.Unlock()
+	if answer, _, err := messages.DecodeAnswerRequest(body); err != nil {
+		t.undecoded++
+	} else if d, err := util.DeserializeSessionDescription(answer); err != nil {
+		t.undecoded++
+	} else {
+		t.sents = append(t.sents, d.SDP)
+	}
+	k := t.n
+	t.n++
+	resp := func(code int, b []byte) *http.Response {
+		return &http.Response{StatusCode: code, Status: strconv.Itoa(code), Proto: "HTTP/1.1", ProtoMajor: 1, ProtoMinor: 1,
+			Header: http.Header{}, Body: ioutil.NopCloser(bytes.NewReader(b)), ContentLength: int64(len(b)), Request: req}
+	}
+	if k < len(t.faults) {
+		switch t.faults[k] {
+		case "reset":
+			return nil, &net.OpError{Op: "write", Net: "tcp", Err: os.NewSyscallError("write", syscall.ECONNRESET)}
+		case "refused":
+			return nil, &net.OpError{Op: "dial", Net: "tcp", Err: os.NewSyscallError("connect", syscall.ECONNREFUSED)}
+		case "timeout":
+			return nil, &net.OpError{Op: "read", Net: "tcp", Err: verifC08Timeout{}}
+		case "eof":
+			return nil, io.EOF
+		case "http500":
+			return resp(http.StatusInternalServerError, nil), nil
+		}
+		panic("unknown fault kind " + t.faults[k])
+	}
+	b, _ := messages.EncodeAnswerResponse(true)
+	return resp(http.StatusOK, b), nil
 }
 
 func verifC08Gathered(pc *webrtc.PeerConnection, set func() error) error {
@@ -133,82 +196,79 @@ func TestVerifC08SendAnswer(t *testing.T) {
 		items = append(items, it)
 	}
 	f.Close()
+	var scripts [][]string
+	sf, err := os.Open(os.Getenv("VERIF_C08_SCRIPTS"))
+	if err != nil {
+		t.Fatal(err)
+	}
+	sc = bufio.NewScanner(sf)
+	for sc.Scan() {
+		if len(bytes.TrimSpace(sc.Bytes())) == 0 {
+			continue
+		}
+		var x struct {
+			Faults []string `json:"faults"`
+		}
+		if err := json.Unmarshal(sc.Bytes(), &x); err != nil {
+			t.Fatalf("bad script line: %v", err)
+		}
+		scripts = append(scripts, x.Faults)
+	}
+	sf.Close()
+	if len(scripts) == 0 {
+		t.Fatal("no environment scripts")
+	}
 	offer, err := verifC08Offer()
 	if err != nil {
 		t.Fatal(err)
 	}
 
-	// the "broker": captures the answer of each sid
-	var mu sync.Mutex
-	posted := map[string][]string{}
-	ts := httptest.NewServer(http.HandlerFunc(func(w http.ResponseWriter, r *http.Request) {
-		body, _ := ioutil.ReadAll(r.Body)
-		if r.URL.Path != "/answer" {
-			w.WriteHeader(http.StatusNotFound)
-			return
-		}
-		answer, sid, err := messages.DecodeAnswerRequest(body)
-		if err != nil {
-			w.WriteHeader(http.StatusBadRequest)
-			return
-		}
-		d, err := util.DeserializeSessionDescription(answer)
-		if err != nil {
-			w.WriteHeader(http.StatusBadRequest)
-			return
-		}
-		mu.Lock()
-		posted[sid] = append(posted[sid], d.SDP)
-		mu.Unlock()
-		b, _ := messages.EncodeAnswerResponse(true)
-		w.Write(b)
-	}))
-	defer ts.Close()
-
-	caps := make([]verifC08Capture, 2*len(items))
+	per := 2 * len(scripts)
+	caps := make([]verifC08Capture, per*len(items))
 	var wg sync.WaitGroup
 	sem := make(chan struct{}, 8)
 	for i := range items {
-		for k, keep := range []bool{false, true} {
-			wg.Add(1)
-			sem <- struct{}{}
-			go func(slot int, it item, keep bool) {
-				defer wg.Done()
-				defer func() { <-sem }()
-				c := &caps[slot]
-				c.Idx, c.Typ, c.Addr, c.KeepLocal = slot, it.Typ, it.Addr, keep
-				defer func() {
-					if v := recover(); v != nil {
-						c.Panic = fmt.Sprintf("%v\n%s", v, debug.Stack())
+		wg.Add(1)
+		sem <- struct{}{}
+		go func(i int, it item) {
+			defer wg.Done()
+			defer func() { <-sem }()
+			mine := caps[per*i : per*(i+1)]
+			for k := range mine {
+				mine[k].Idx, mine[k].Typ, mine[k].Addr = per*i+k, it.Typ, it.Addr
+				mine[k].KeepLocal, mine[k].Faults = k%2 == 1, scripts[k/2]
+			}
+			// one PeerConnection per candidate; its local description is fixed once gathering is complete
+			pc, err := verifC08Answerer(offer, it.Typ, it.Addr)
+			if err != nil {
+				for k := range mine {
+					mine[k].Skip = err.Error()
+				}
+				return
+			}
+			defer pc.Close()
+			for k := range mine {
+				func(c *verifC08Capture) {
+					defer func() {
+						if v := recover(); v != nil {
+							c.Panic = fmt.Sprintf("%v\n%s", v, debug.Stack())
+						}
+					}()
+					c.Input = pc.LocalDescription().SDP
+					// the constructor Start() uses, so that the configuration flag is bound too
+					srv, err := newSignalingServer("http://broker.invalid/", c.KeepLocal)
+					if err != nil {
+						panic(err)
 					}
-				}()
-				pc, err := verifC08Answerer(offer, it.Typ, it.Addr)
-				if err != nil {
-					c.Skip = err.Error()
-					return
-				}
-				defer pc.Close()
-				c.Input = pc.LocalDescription().SDP
-				// the constructor Start() uses, so that the configuration flag is bound too
-				srv, err := newSignalingServer(ts.URL, keep)
-				if err != nil {
-					panic(err)
-				}
-				sid := fmt.Sprintf("sid-%d", slot)
-				if err := srv.sendAnswer(sid, pc); err != nil {
-					c.Skip = "sendAnswer: " + err.Error()
-				}
-				mu.Lock()
-				got := posted[sid]
-				mu.Unlock()
-				if len(got) != 1 {
-					c.NotSent = true
-					return
-				}
-				c.Skip = ""
-				c.Sent = got[0]
-			}(2*i+k, items[i], keep)
-		}
+					tr := &verifC08Transport{faults: c.Faults}
+					srv.transport = tr
+					srv.sendAnswer(fmt.Sprintf("sid-%d", c.Idx), pc)
+					tr.mu.Lock()
+					c.Sents, c.Undecoded = append([]string{}, tr.sents...), tr.undecoded
+					tr.mu.Unlock()
+				}(&mine[k])
+			}
+		}(i, items[i])
 	}
 	wg.Wait()
 	of, err := os.Create(outp)
